@@ -31,6 +31,7 @@ typedef struct {
   int      lookups_via;  /* 0: ARES_OPT_LOOKUPS; 1: "lookup ..." in resolv.conf (the channel's own copy is replaced on reinit) */
   int      ndots_via;    /* 0: ARES_OPT_NDOTS; 1: "options ndots:N" in resolv.conf; 2: RES_OPTIONS */
   int      domains_via;  /* 0: ARES_OPT_DOMAINS; 1: "search ..." in resolv.conf; 2: LOCALDOMAIN (needs ndomains > 0) */
+  int      sys_search_decoy; /* the domain list comes from ARES_OPT_DOMAINS (possibly empty): resolv.conf carries a search line that must lose */
   int      domains_decoy; /* with domains_via 1: an earlier "domain x" (1) or "search x y" (2) line that the search line replaces */
   int      use_server_state_cb;
   int      local_bind; /* 1: ares_set_local_ip4/ip6 + ares_set_local_dev */
@@ -420,6 +421,7 @@ static void app_cb_common(app_tok_t *t, int status, int timeouts)
   }
 }
 
+static volatile unsigned app_touch_sink; /* reads of library-owned callback data after the re-entrant actions */
 static void app_cb_raw(void *arg, int status, int timeouts, unsigned char *abuf, int alen)
 {
   app_tok_t *t = (app_tok_t *)arg;
@@ -434,6 +436,11 @@ static void app_cb_raw(void *arg, int status, int timeouts, unsigned char *abuf,
     }
   }
   app_cb_common(t, status, timeouts);
+  /* what the library handed in is the callback's until it returns, whatever the callback did in between (started
+   * requests, cancelled, changed servers): look at it once more on the way out */
+  if (abuf != NULL && alen > 0) {
+    app_touch_sink += abuf[0] + abuf[alen - 1];
+  }
 }
 
 static void app_cb_dnsrec(void *arg, ares_status_t status, size_t timeouts, const ares_dns_record_t *rec)
@@ -443,6 +450,14 @@ static void app_cb_dnsrec(void *arg, ares_status_t status, size_t timeouts, cons
     tok_digest_dnsrec(t, rec);
   }
   app_cb_common(t, (int)status, (int)timeouts);
+  if (rec != NULL) {
+    size_t n = ares_dns_record_rr_cnt(rec, ARES_SECTION_ANSWER);
+    app_touch_sink += (unsigned)ares_dns_record_get_id(rec) + (unsigned)n;
+    if (n > 0) {
+      const ares_dns_rr_t *rr = ares_dns_record_rr_get_const(rec, ARES_SECTION_ANSWER, n - 1);
+      app_touch_sink += rr ? ares_dns_rr_get_ttl(rr) + (unsigned)strlen(ares_dns_rr_get_name(rr)) : 0;
+    }
+  }
 }
 
 static void app_cb_host(void *arg, int status, int timeouts, struct hostent *h)
@@ -475,6 +490,16 @@ static void app_cb_host(void *arg, int status, int timeouts, struct hostent *h)
     }
   }
   app_cb_common(t, status, timeouts);
+  if (h != NULL) {
+    int k;
+    app_touch_sink += h->h_name ? (unsigned)strlen(h->h_name) : 0;
+    for (k = 0; h->h_addr_list && h->h_addr_list[k]; k++) {
+      app_touch_sink += (unsigned char)h->h_addr_list[k][0];
+    }
+    for (k = 0; h->h_aliases && h->h_aliases[k]; k++) {
+      app_touch_sink += (unsigned)strlen(h->h_aliases[k]);
+    }
+  }
 }
 
 static void app_cb_addrinfo(void *arg, int status, int timeouts, struct ares_addrinfo *ai)
@@ -512,13 +537,13 @@ static void app_cb_addrinfo(void *arg, int status, int timeouts, struct ares_add
 static void app_cb_nameinfo(void *arg, int status, int timeouts, char *node, char *service)
 {
   app_tok_t *t = (app_tok_t *)arg;
-  (void)service;
   if (t->cb_count == 0 && node != NULL && !(t->ni_flags & ARES_NI_NUMERICHOST)) {
     t->had_result = 1;
     snprintf(t->canon, sizeof(t->canon), "%s", node);
     tok_add_serial(t, serial_from_text(node), 0);
   }
   app_cb_common(t, status, timeouts);
+  app_touch_sink += (node ? (unsigned)strlen(node) : 0) + (service ? (unsigned)strlen(service) : 0);
 }
 
 /* ------------------------------------------------------------------ starting a request */
@@ -819,6 +844,12 @@ static int app_channel_init(void)
       snprintf(app_cfg.env_res_options, sizeof(app_cfg.env_res_options), "ndots:%d", app_cfg.ndots);
     }
     sim_note("search_parameters_from_system_configuration");
+  }
+  if (app_cfg.sys_search_decoy && !(app_cfg.domains_via && app_cfg.ndomains > 0)) {
+    size_t ro2 = strlen(app_cfg.resolv_content);
+    snprintf(app_cfg.resolv_content + ro2, sizeof(app_cfg.resolv_content) - ro2, "%ssearch sysdecoy1.invalid sysdecoy2.invalid\n",
+             ro2 && app_cfg.resolv_content[ro2 - 1] != '\n' ? "\n" : "");
+    sim_note("system_search_list_that_must_lose");
   }
   app_write_file(app_resolv, app_cfg.resolv_content[0] ? app_cfg.resolv_content : "# simnet\n");
   app_write_file(app_hosts, app_cfg.hosts_content);
